@@ -122,6 +122,19 @@ func vxTrack(roots ...interface{})    {}
 func vxOr(a, b bool) bool             { return a || b }
 func vxAnd(a, b bool) bool            { return a && b }
 func vxImplies(a, b bool) bool        { return !a || b }
+func vxIteByte(c bool, a, b byte) byte {
+	if c {
+		return a
+	}
+	return b
+}
+func vxIteInt(c bool, a, b int) int {
+	if c {
+		return a
+	}
+	return b
+}
+func vxRaceFree() bool                { return true }
 func vxNative() bool                  { return true }
 func vxIsSymbolic(x interface{}) bool { return false }
 func vxPanics(f func()) (p bool) {
